@@ -14,7 +14,7 @@
 (* position can occur twice (libdeflate's 3-byte table in front of the     *)
 (* 4-byte chain) - the invariant says the counts still invert.             *)
 (***************************************************************************)
-EXTENDS Match, FiniteSets, TLC
+EXTENDS Match, FiniteSets, TLC, Json, SequencesExt
 
 CONSTANTS N, Alphabet,
           Asym        \* negative configuration: the reconstructor does not consult libdeflate's 3-byte table
@@ -86,6 +86,9 @@ PredictionValid ==
 PendingValid == (state = "run" /\ pend # NoRef) =>
                    /\ pend[2] \in 1..pos /\ pend[1] <= Len(plain) - pos
                    /\ Common(plain, pos, pend[2], 0, pend[1]) >= pend[1]
+\* the parameter vectors, for the harness' exhaustive small-scope run of the real matcher (match-exhaustive)
+Replay == (pos = 0 /\ Len(plain) = 1 /\ plain[1] = 97 /\ par = PV(1, 1, 0, 0, 4, 4, 258, 4, 4096, 0, 0)) =>
+             PrintT(<<"REPLAY", ToJson([vecs |-> SetToSeq(ParamSet)])>>)
 \* vacuity probes (each must be violated): the model does reach rejections, corrected lengths,
 \* distances several hops away, and wrongly predicted token kinds
 ProbeRejected == state # "rejected"
